@@ -6,6 +6,7 @@ package interpreter
 
 import (
 	"fmt"
+	"strings"
 
 	"github.com/ah-naf/borno/ast"
 	"github.com/ah-naf/borno/environment"
@@ -489,5 +490,39 @@ func VH_printVsConcat(p int) {
 	verifAssert("bin-result-is-string", hvIsStr(left) && hvIsStr(right))
 	if hvIsStr(left) && hvIsStr(right) {
 		verifAssert("bin-string-result", hvStr(left)+"\n" == printed && hvStr(right)+"\n" == printed)
+	}
+}
+
+// VH_printLong (C15): a printed text of n bytes followed by a pair NFC composes (e + U+0301, or
+// the two parts of a Bangla vowel sign): however long the text and wherever the pair falls, the
+// line written is the NFC form of the text and one newline — whether it is written in one piece
+// or several.
+func VH_printLong(n int) {
+	tails := []string{"e\u0301", "\u0995\u09c7\u09be", "k\u09df"}
+	tail := tails[verifChoice(len(tails))]
+	text := strings.Repeat("x", n) + tail
+	in := NewInterpreter()
+	env := environment.NewEnvironmentWithParent(in.globals)
+	which := verifChoice(2)
+	if which == 0 {
+		env.Define("v", text)
+	} else {
+		env.Define("v", []interface{}{text, 1.0})
+	}
+	utils.HadError, utils.HadRuntimeError = false, false
+	verifClearEvents()
+	in.eval(&ast.PrintStatement{Expression: ident("v", 2)}, env, false)
+	out := ""
+	for i := 0; i < verifNumEvents(); i++ {
+		if verifEventKind(i) == 1 {
+			out += verifEventText(i)
+		}
+	}
+	verifAssert("print-no-diagnostic", hvCountStderr() == 0)
+	verifAssert("printed-line-is-in-nfc", norm.NFC.String(out) == out)
+	if which == 0 {
+		verifAssert("printed-text-is-the-value-text-plus-newline", out == norm.NFC.String(text)+"\n")
+	} else {
+		verifAssert("nested-string-prints-as-its-characters", verifTextContainsInOrder(out, norm.NFC.String(text), "1"))
 	}
 }
